@@ -62,6 +62,7 @@ pub fn aircraft_actions(tag: &str, a: u32) -> Vec<Action> {
         l("TC6 surface", frames::df17(5, a, frames::me_surfpos(6, 20, 1, 60, 0, 0, 93006, 51380))),
         l("TC19 v1", frames::df17(5, a, frames::me_velocity(&Vel { st: 1, dew: 1, vew: 9, dns: 1, vns: 160, vrsign: 1, vr: 14, ..Default::default() }))),
         l("TC19 v2", frames::df17(5, a, frames::me_velocity(&Vel { st: 1, dew: 0, vew: 301, dns: 0, vns: 77, vrsign: 0, vr: 31, ..Default::default() }))),
+        l("TC19 st2 supersonic", frames::df17(5, a, frames::me_velocity(&Vel { st: 2, dew: 0, vew: 251, dns: 1, vns: 101, vrsign: 0, vr: 9, ..Default::default() }))),
         l("TC19 no-info", frames::df17(5, a, frames::me_velocity(&Vel { st: 1, dew: 0, vew: 0, dns: 0, vns: 0, vrsign: 0, vr: 0, ..Default::default() }))),
         l("TC19 st3", frames::df17(5, a, frames::me_velocity(&Vel { st: 3, dew: 1, vew: 512, dns: 0, vns: 300, vrsign: 0, vr: 5, ..Default::default() }))),
         l("TC29", frames::df17(5, a, frames::me_tc29())),
